@@ -32,13 +32,13 @@ META = dict(
 def run(ctx):
     # exhaustive model checking: one run covers all configurations MaxConns in {1,2} x wait x LIFO/FIFO
     ctx.tlc_mc("client", "HostClientPoolMC", "HostClientPoolMC.cfg", workers=4, timeout=1200,
-               consts={"MAXCONNS": 2, "ENV": "TRUE", "NREQS": "{1, 2, 3}"})
+               consts={"MAXCONNS": 2, "ENV": "TRUE", "NREQS": "{1, 2, 3}", "TLS": "TRUE"})
     if not ctx.quick:
         ctx.tlc_mc("client", "HostClientPoolMC", "HostClientPoolMC.cfg", workers=4, timeout=1200,
-                   consts={"MAXCONNS": 2, "ENV": "FALSE", "NREQS": "{1, 2, 3}"})
+                   consts={"MAXCONNS": 2, "ENV": "FALSE", "NREQS": "{1, 2, 3}", "TLS": "FALSE"})
         # 4 requests, safety only
         ctx.tlc_mc("client", "HostClientPoolMC", "HostClientPoolMCsafe.cfg", workers=8, timeout=2400,
-                   consts={"MAXCONNS": 2, "ENV": "TRUE", "NREQS": "{1, 2, 3, 4}"})
+                   consts={"MAXCONNS": 2, "ENV": "TRUE", "NREQS": "{1, 2, 3, 4}", "TLS": "FALSE"})
     ctx.exhaustive = True
 
     # conformance of the real code
